@@ -1,6 +1,8 @@
 package zv
 
 import (
+	"runtime"
+	"strings"
 	"sync"
 
 	"github.com/juev/hledger-lsp/internal/verifhook"
@@ -22,6 +24,8 @@ type HookGate struct {
 	parked  []*hookCall
 	arrived int64
 	Passed  map[string]int64 // how often each point was reached
+	// AnyGoroutine also parks goroutines the harness started (direct loader/workspace drivers)
+	AnyGoroutine bool
 }
 
 var activeGate *HookGate
@@ -45,7 +49,7 @@ func RemoveHookGate() {
 func hookPark(g *HookGate, point, key string) {
 	g.mu.Lock()
 	g.Passed[point]++
-	if !g.points[point] {
+	if !g.points[point] || (!g.AnyGoroutine && !onServerGoroutine()) {
 		g.mu.Unlock()
 		return
 	}
@@ -55,6 +59,14 @@ func hookPark(g *HookGate, point, key string) {
 	g.parked = append(g.parked, h)
 	g.mu.Unlock()
 	<-h.release
+}
+
+// onServerGoroutine reports whether the caller runs on a goroutine the server package started
+// (the handler thread itself is never parked: that would be a deadlock of the harness' making).
+func onServerGoroutine() bool {
+	buf := make([]byte, 1<<14)
+	n := runtime.Stack(buf, false)
+	return strings.Contains(string(buf[:n]), srvCreatedBy)
 }
 
 func (g *HookGate) SetPoints(points ...string) {
